@@ -384,9 +384,13 @@ class BaseRequest:
         host = e.get("HTTP_HOST")
 
         if host is not None:
+            port = None
+
             if ":" in host and host[-1] != "]":
                 host, port = host.rsplit(":", 1)
-            else:
+
+            # "Host: example.com:" carries no port either (RFC 3986 3.2.3)
+            if not port:
                 url_scheme = e["wsgi.url_scheme"]
 
                 if url_scheme == "https":
